@@ -60,6 +60,7 @@ KEY_POOLS = [
     {'k1': '', 'k2': '中', 'k3': ' ', 'k4': '\xa0'},
     {'k1': '1', 'k2': 'true', 'k3': 'null', 'k4': '1.5'},
     {'k1': 'x\U0001F600', 'k2': 'a\x01', 'k3': '\ud800', 'k4': '\n'},
+    {'k1': 'zz', 'k2': 'aa', 'k3': 'Mm', 'k4': '0'},      # not in sorted order
 ]
 
 
@@ -394,6 +395,90 @@ def _chunk(args):
     return res
 
 
+def _json_proj(v):
+    """JSON projection of plain data: dates as ISO strings."""
+    if isinstance(v, (datetime.date, datetime.datetime)):
+        return ('TS', v)
+    if isinstance(v, list):
+        return [_json_proj(x) for x in v]
+    if isinstance(v, dict):
+        return {k: _json_proj(x) for k, x in v.items()}
+    return v
+
+
+def _cm_chunk(cases):
+    import dumpcheck
+    import loadreplay
+    out = []
+    for c in cases:
+        b = loadreplay.built(c['model'])
+        y = loadreplay.ctx()['yatiml']
+        obj, _ = dumpcheck.build_objects(b, c['oh'], c['oroot'])
+        proj = _json_proj(dumpcheck.plain_projection(c['dumped']))
+        errs = []
+        if not isinstance(proj, (list, dict)) and isinstance(proj, float) \
+                and not math.isfinite(proj):
+            out.append(errs)
+            continue
+        dumps = y.dumps_json_function(*b.registered)
+        for kw in ({}, {'indent': 2, 'ensure_ascii': False}):
+            try:
+                text = dumps(obj, **kw)
+            except Exception as e:  # noqa
+                errs.append('dumps_json(%s, %s) raised %s: %s' % (
+                    json.dumps(c['value'])[:200], kw, type(e).__name__, e))
+                continue
+            try:
+                back = json.loads(text, parse_constant=_bad_const)
+            except ValueError as e:
+                errs.append('dumps_json(%s, %s) = %r is not strict JSON: %s'
+                            % (json.dumps(c['value'])[:200], kw, text[:200], e))
+                continue
+            if not proj_equal(proj, back):
+                errs.append('dumps_json(%s, %s) = %r: content %r differs from '
+                            'the projection %r' % (
+                                json.dumps(c['value'])[:200], kw, text[:200],
+                                back, proj))
+        out.append(errs)
+    return out
+
+
+def _finite(v):
+    if v[0] == 'float':
+        return v[1] not in ('inf', '-inf', 'nan')
+    if v[0] in ('list', 'dict', 'odict'):
+        return all(_finite(x) for x in v[1] if isinstance(x, list))
+    if v[0] == 'obj':
+        return all(_finite(x) for x in v[2] if isinstance(x, list))
+    return True
+
+
+def _strkeys(c):
+    return all(o['k'] != 'dict' or all(
+        c['oh'][k - 1]['k'] in ('str', 'strlike', 'enum')
+        for k in (o['f'] if isinstance(o['f'], list) else [])[0::2])
+        for o in c['oh'])
+
+
+def class_model_json(V, tier):
+    import dumpcheck
+    import loadcheck
+    stats, cases = loadcheck.tlc_cases(
+        'MC_RoundTrip_q.cfg' if tier == 'quick' else 'MC_RoundTrip_t.cfg',
+        module='MC_RoundTrip', extra_files=('RoundTrip.tla',),
+        dimplicit=dumpcheck.live_dimplicit())
+    loadcheck.add_stats(V, stats)
+    cases = [c for c in cases if c['dex'] == '' and isinstance(c['oh'], list)
+             and c['nreuse'] == 0 and _finite(c['value']) and _strkeys(c)]
+    res = pool_map(_cm_chunk, cases)
+    for c, errs in zip(cases, res):
+        V.replayed += 1
+        V.evaluations += 2
+        for e in errs:
+            V.violation({'case': {'cm': c}, 'variant': 0}, e)
+    V.notes['class_model_values'] = len(cases)
+
+
 def run(tier, replay=None):
     V = Verdict('C07', tier)
     V.assumptions = [
@@ -407,6 +492,14 @@ def run(tier, replay=None):
         with open(replay) as f:
             rec = json.load(f)
         case = rec['case']
+        if 'cm' in case['case']:
+            import dumpcheck
+            import loadcheck
+            loadcheck.write_models(dumpcheck.live_dimplicit())
+            errs = _cm_chunk([case['case']['cm']])[0]
+            for e in errs:
+                print(e)
+            return 1 if errs else 0
         errs, _ = replay_case(case['case'], [case['variant']], True)
         for e in errs:
             print(e)
@@ -450,6 +543,8 @@ def run(tier, replay=None):
                 V.sample({'indent': c['req'], 'events': c['evs'],
                           'predicted_tokens': c['out']})
                 k += 1
+    # generated class-model values (RoundTrip exploration) through dumps_json
+    class_model_json(V, tier)
     # binding (B): recorded emitter traces validated by TLC
     try:
         import trace_json
